@@ -3,26 +3,31 @@ import json
 import re
 
 from .c14 import _pure_int_const, lit_str_of
-from .lib import ITER_PLUMBING, PLUMBING, callee_allow, closure_of_operand, http_error_ctors_on_error_path, operand_local, result_split, status_const_of_ctor
-from .lib_c20 import (ABSORB, chain_calls, chain_closures, enforced_at, hasher_lineage, hasher_root, lift_atom, origin_chains, pattern_answers, resolve_lit,
+from .lib import ITER_PLUMBING, PLUMBING, callee_allow, closure_of_operand, http_error_ctors_on_error_path, result_split, status_const_of_ctor
+from .lib_c20 import (ABSORB, blocks_after_success, chain_calls, chain_closures, enforced_at, hasher_lineage, hasher_root, lift_atom, origin_chains, pattern_answers, resolve_lit,
                       separator_answers)
 
 LEVEL = "other"
-TECHNIQUE = ("static analysis: per-header guard dominance over the only WebsocketUpgrade constructor (accept edge dominates it, reject edge returns for_bad_request), evaluated constants "
-             "(GUID, \"13\", 101, header names, token literals), ordered SHA-1 updates, value-preserving chains key -> derive_accept_key -> Sec-WebSocket-Accept and upgraded I/O -> handler")
+TECHNIQUE = ("static analysis: per-header path facts over the only WebsocketUpgrade constructor (it is reached only after the header's test succeeded — whether the test is an iterator chain, "
+             "a for loop with a flag, a guarded match or a `?` — and every other exit returns for_bad_request), element origins followed through closures and loops, concrete evaluation of separator "
+             "predicates, evaluated constants (GUID, \"13\", 101, header names, token literals), ordered absorption into one SHA-1 state lineage, value-preserving chains key -> derive_accept_key -> "
+             "Sec-WebSocket-Accept and upgraded I/O -> handler")
 LEVEL_TEXT = ("Decided on the MIR of the current tree, for every path: the single construction site of WebsocketUpgrade (private field, one aggregate, inside from_request) is reached only "
-              "through the accept edges of four tests, one per mandatory header — Connection contains the token `upgrade` and Upgrade contains `websocket` (eq_ignore_ascii_case on the items "
-              "of a split of the header text, absent header = reject), Sec-WebSocket-Version equals the evaluated bytes \"13\", Sec-WebSocket-Key present — and every reject edge returns "
-              "an error built by for_bad_request (evaluated 400) without constructing the upgrade; derive_accept_key feeds SHA-1 with the key and then the constant whose evaluated value is "
+              "after four tests, one per mandatory header, have succeeded on the path — Connection contains the token `upgrade` and Upgrade contains `websocket` (eq_ignore_ascii_case on an element "
+              "of a split of the header text; the element is followed back to HeaderMap::get*(header) through for loops, iterator adaptors and inlined helpers; absent header = reject), "
+              "Sec-WebSocket-Version equals the evaluated bytes \"13\", Sec-WebSocket-Key present — and every other exit returns "
+              "an error built by for_bad_request (evaluated 400) without constructing the upgrade; derive_accept_key absorbs into one fresh SHA-1 state (update or chain_update) the key and then the constant whose evaluated value is "
               "the RFC 6455 GUID and returns STANDARD base64 of finalize(); its argument is the raw bytes of the key header and its result is the only origin of the Sec-WebSocket-Accept "
               "value in handle; handle answers status 101 with Connection: upgrade / Upgrade: websocket, spawns the task before building the response, and the task passes "
               "WebsocketConnection(WebsocketConnectionRaw(TokioIo::new(upgraded))) — the Ok payload of the awaited upgrade future and nothing else — to the user handler. "
-              "Not decided: header-list tokenisation for every spelling (only `,` and space separate tokens; one header line is read), SHA-1/base64 themselves, byte transparency of hyper's upgraded I/O.")
+              "Not decided: list syntax beyond `,` SP HTAB separation (quoted strings, comments), traversals that truncate the field lines after get_all (e.g. take(1)), idioms that do not look the header up by name "
+              "(iterating the whole map fails closed), SHA-1/base64 themselves, byte transparency of hyper's upgraded I/O.")
 LEVEL_NOTE = ("Trusts rustc MIR + const evaluation, the extractor, engine slices/dominators, http::HeaderMap::get / Builder::header, Option::{map,and_then,unwrap_or,ok_or_else}, "
               "Iterator::any, str::eq_ignore_ascii_case, sha1::Digest, base64 STANDARD, tokio::spawn, hyper::upgrade::on.")
-EXPLANATION = ("DOM/PASS per header constant over the coroutine body of from_request; CONST for GUID / version / status / literals read from evaluated operands; ORDER of the two "
-               "Digest::update calls by dominance; CHAIN slices with allow-lists; WHO-CONSTRUCTS census for WebsocketUpgrade and WebsocketUpgradeInner; SHAPE of the private field.")
-TRUSTED = ["rustc nightly MIR + const evaluation", "mirfacts extractor", "rules/engine.py", "http::HeaderMap::get, http::response::Builder", "std Option/Iterator combinators",
+EXPLANATION = ("path-sensitive boolean facts (bool_states / guarded_by, flags justified definition by definition) per header constant over the coroutine body of from_request with helpers inlined; "
+               "CONST for GUID / version / status / literals read from evaluated operands; ORDER of the two absorb calls by dominance within one hasher lineage; CHAIN slices with allow-lists; "
+               "concrete MIR evaluation of char predicates; exploration with concrete test outcomes for `a match on any line suffices`; WHO-CONSTRUCTS census for WebsocketUpgrade and WebsocketUpgradeInner; SHAPE of the private field.")
+TRUSTED = ["rustc nightly MIR + const evaluation", "mirfacts extractor", "rules/engine.py, rules/lib.py, rules/lib_c20.py", "http::HeaderMap::get / get_all, http::response::Builder", "std Option/Iterator combinators",
            "sha1::Digest update/finalize, base64 STANDARD engine", "tokio::spawn, hyper::upgrade::on, hyper_util TokioIo"]
 
 GUID = "258EAFA5-E914-47DA-95CA-C5AB0DC85B11"
@@ -158,6 +163,29 @@ def _version_tests(b, gbb):
     return out
 
 
+def _token_atoms(ctx, b, gbb, H):
+    """(atoms of `b` that are true only if some element of header H equals the token ignoring case, tests, reasons)."""
+    tests = _token_tests(ctx, b, gbb)
+    mine = [t for t in tests if t["lit"] is not None and t["lit"].lower() == TOKENS[H]]
+    lifted, why = [], []
+    for t in mine:
+        a, reason = lift_atom(ctx.ds, t["chain"], t["ebb"])
+        if a is None:
+            why.append(reason)
+            continue
+        split = bool(chain_calls(t["chain"], SPLIT))
+        badc = sorted(set(c for h in t["chain"] for c, _ in callee_allow(h.sl, ELEMENT_CHAIN)) |
+                      set(t2["callee"] or "<indirect>" for g in chain_closures(ctx.ds, t["chain"]) for _, t2 in g.live_calls()
+                          if not any(re.search(p, t2["callee"] or "") for p in ELEMENT_CHAIN)))
+        if not split:
+            why.append("the compared value is not an element of a split of the header text")
+        elif badc:
+            why.append("the element is transformed by %s" % badc)
+        else:
+            lifted.append(a)
+    return set(("call", a) for a in lifted), tests, why
+
+
 # ------------------------------------------------------------------------------------------------ R1
 def r1_four_checks(ctx):
     R = ctx.rule("C20.R1", "the construction of WebsocketUpgrade in from_request is reached, for each of Connection / Upgrade / Sec-WebSocket-Version / Sec-WebSocket-Key, only after a test of "
@@ -205,25 +233,8 @@ def r1_four_checks(ctx):
         test_ok, test_det, test_key = False, "", None
         if H in TOKENS:
             test_key = "%s:case-insensitive-token-test" % H
-            tests = _token_tests(ctx, b, gbb)
-            mine = [t for t in tests if t["lit"] is not None and t["lit"].lower() == TOKENS[H]]
-            lifted, why = [], []
-            for t in mine:
-                a, reason = lift_atom(ctx.ds, t["chain"], t["ebb"])
-                if a is None:
-                    why.append(reason)
-                    continue
-                split = bool(chain_calls(t["chain"], SPLIT))
-                badc = sorted(set(c for h in t["chain"] for c, _ in callee_allow(h.sl, ELEMENT_CHAIN)) |
-                              set(t2["callee"] or "<indirect>" for g in chain_closures(ctx.ds, t["chain"]) for _, t2 in g.live_calls()
-                                  if not any(re.search(p, t2["callee"] or "") for p in ELEMENT_CHAIN)))
-                if not split:
-                    why.append("the compared value is not an element of a split of the header text")
-                elif badc:
-                    why.append("the element is transformed by %s" % badc)
-                else:
-                    lifted.append(a)
-            t_atoms = set(("call", a) for a in lifted)
+            t_atoms, tests, why = _token_atoms(ctx, b, gbb, H)
+            lifted = sorted(t_atoms)
             test_ok = bool(lifted) and not why
             test_det = ("%d eq_ignore_ascii_case test(s) on elements of %s, literal(s) %s (want %r); %d usable as `some element matches`%s"
                         % (len(tests), H, sorted(set(str(t["lit"]) for t in tests)), TOKENS[H], len(lifted), ("; " + "; ".join(why)) if why else ""))
@@ -505,11 +516,31 @@ def x5_list_headers(ctx):
     """Armed since the repair d8a2f7a (the pinned tree read only the first field line and ignored HTAB; see known_findings.json `fixed:`):
     Connection / Upgrade are comma-separated list fields that may be split over several field lines and use SP / HTAB as optional whitespace (RFC 9110 5.3, 5.6.1);
     the structural necessary conditions are (a) every field line is consulted (HeaderMap::get_all, not get = first line only) and (b) tokens are trimmed of SP and HTAB."""
-    R = ctx.rule("C20.X5", "list-valued handshake headers: all field lines are consulted and tokens are separated by `,` with SP/HTAB optional whitespace", floor=4)
+    R = ctx.rule("C20.X5", "list-valued handshake headers: all field lines are consulted — a matching element on any line suffices — and tokens are separated by `,` with SP/HTAB optional whitespace", floor=6)
     try:
         w, b = _from_request(ctx, R)
     except LookupError:
         return
+    reach = b.reachable(0)
+    aggs = [bb for bb, i, st in b.aggregates("^" + re.escape(UPG_ADT) + "$") if bb in reach]
+    site = aggs[0] if len(aggs) == 1 else None
+    # the tests of the four mandatory headers, as atoms of from_request
+    atoms, avoid = {}, []
+    for H in MANDATORY:
+        gets = [(bb, t) for bb, t in b.live_calls(GET) if _hdr_consts(b.slice(t["args"][1])) == {H}]
+        if len(gets) != 1:
+            continue
+        if H in TOKENS:
+            atoms[H] = (_token_atoms(ctx, b, gets[0][0], H)[0], set())
+        elif H == "SEC_WEBSOCKET_VERSION":
+            vt = [x for x in _version_tests(b, gets[0][0]) if x[2] == ["13"]]
+            atoms[H] = (set(("call", x[0]) for x in vt if x[1] == "eq"), set(("call", x[0]) for x in vt if x[1] == "ne"))
+        if H not in TOKENS:
+            # the header is present: where the lookup is split into Some / None, only the Some edge is followed
+            sp = result_split(b, gets[0][1]["dest"]["l"])
+            if sp and sp["err"] is not None and sp["err"] != sp["ok"]:
+                avoid.append((sp["switch_bb"], sp["err"]))
+    err_exits = [bb for bb, var, op in _ret_defs(b, reach) if site is None or not b.dominates(site, bb)]
     for H in ("CONNECTION", "UPGRADE"):
         gets = [(bb, t) for bb, t in b.live_calls(GET) if _hdr_consts(b.slice(t["args"][1])) == {H}]
         if len(gets) != 1:
@@ -519,6 +550,25 @@ def x5_list_headers(ctx):
         ctx.check(R, "%s:all-field-lines" % H, gt["callee"].endswith("get_all"),
                   "%s is read with %s: %s" % (H, gt["callee"].split("::")[-1], "every field line" if gt["callee"].endswith("get_all") else
                                              "only the first field line is seen, so `%s: %s` followed by a second `%s: %s` line is answered 400" % (H.title(), OTHER_TOKEN[H], H.title(), TOKENS[H])), (b, gbb))
+        # a request whose other mandatory elements are all in order and whose header H matches on at least one field line
+        # is not refused: explore from_request with the other tests fixed to their accepting outcome and the test of H free
+        # (true or false at every evaluation); once every list header has matched at least once no error exit may be reachable
+        forced = {}
+        for H2, (ta, fa) in atoms.items():
+            if H2 not in TOKENS:
+                forced.update({a: True for a in ta})
+                forced.update({a: False for a in fa})
+        groups = {H2: atoms[H2][0] for H2 in TOKENS if H2 in atoms}
+        mine = groups.get(H, set())
+        hit, every = blocks_after_success(b, groups, H, forced, avoid_edges=avoid) if mine and all(groups.values()) and len(groups) == len(TOKENS) and site is not None else (None, None)
+        lost_exits = sorted(bb for bb in err_exits if hit is not None and bb in hit)
+        okm = hit is not None and site in hit and not lost_exits
+        ctx.check(R, "%s:match-on-any-line-suffices" % H, okm,
+                  ("once an element of %s has matched, every path (other mandatory headers in order) ends in the WebsocketUpgrade constructor" % H) if okm else
+                  ("no usable element test of %s" % H) if not mine or hit is None else
+                  "after an element of %s has matched on one field line the request can still be refused (%d error exit(s) reachable): a match is forgotten when a later "
+                  "line does not match, so `%s: %s` followed by a `%s: %s` line is answered 400" % (H, len(lost_exits), H.title(), TOKENS[H], H.title(), OTHER_TOKEN[H]),
+                  (b, lost_exits[0] if lost_exits else gbb))
         # tokenisation of the elements that are compared with the token: every `split` on the way from the header
         # text to the compared element is asked, by concrete evaluation of its pattern, whether it separates at
         # `,`, SP and HTAB; an element that is trimmed before the comparison needs no SP/HTAB separator
@@ -723,6 +773,22 @@ SELFTEST = [
         }
         if !protocol_ok {""")],
      "expect": ["C20.R1"], "why": "the loop's flag starts out true, so a request without `Upgrade: websocket` is upgraded"},
+    {"name": "upgrade-last-line-wins", "kind": "mutant",
+     "edits": [(WS, """        if !request
+            .headers()
+            .get_all(header::UPGRADE)
+            .iter()
+            .filter_map(|v| v.to_str().ok())
+            .any(|v| {
+                v.split(|c| c == ',' || c == ' ' || c == '\\t')
+                    .any(|v| v.eq_ignore_ascii_case("websocket"))
+            })
+        {""", """        let mut protocol_ok = false;
+        for line in request.headers().get_all(header::UPGRADE).iter().filter_map(|v| v.to_str().ok()) {
+            protocol_ok = line.split([',', ' ', '\\t']).any(|v| v.eq_ignore_ascii_case("websocket"));
+        }
+        if !protocol_ok {""")],
+     "expect": ["C20.X5"], "why": "the per-line result overwrites the flag instead of being OR-ed into it (the defect of seeded change C20-A, with get_all): `Upgrade: websocket` followed by `Upgrade: h2c` is refused"},
     {"name": "log-line-and-match", "kind": "benign",
      "edits": [(WS, "        let route = request.uri().to_string();", '        debug!(rqctx.log, "websocket handshake accepted");\n        let route = request.uri().to_string();'),
                (WS, "            })\n        {\n            return Err(HttpError::for_bad_request(\n                None,\n                \"expected connection upgrade\".to_string(),\n            ));\n        }",
@@ -730,4 +796,4 @@ SELFTEST = [
      "why": "behaviour-preserving: a log line on the accept path, the early return wrapped in a match"},
 ]
 
-LEVEL_TEXT += ' Also (X5): every field line of the list-valued handshake headers is consulted and SP/HTAB are list whitespace; (R6): plain and TLS connections are both served with upgrade support.'
+LEVEL_TEXT += ' Also (X5): every field line of the list-valued handshake headers is consulted (get_all, and a match found on one line cannot be lost on a later one) and SP/HTAB are list whitespace (the separator pattern is evaluated concretely); (R6): plain and TLS connections are both served with upgrade support.'
